@@ -48,10 +48,12 @@ def A2(name, *dom, rng):
 
 def init(gen, st, tree):
     args = [a.arg for a in tree.args.args]
-    if args[:2] != ["end_node", "parents"]:
+    if len(args) != 2:
         from vlib.pyvc import ExtractError
         raise ExtractError(f"signature changed: {args}")
-    st.v["end_node"] = ("node", END)
+    st.v[args[0]] = ("node", END)     # parameters are bound by position: (end node, parents function)
+    PARENTS_FUN.clear()
+    PARENTS_FUN.add(args[1])
     g = st.g
     g["OUT"], g["OUTLEN"] = z3.Array("OUT0", I, Node), z3.IntVal(0)
     for nm, a in dict(gsrc=z3.Array("gsrc0", I, Node), gidx=z3.Array("gidx0", I, I), Cnt=A2("Cnt0", Node, I, rng=B), cntINIT=z3.BoolVal(False),
@@ -64,22 +66,27 @@ def init(gen, st, tree):
 class X:
     """named view of a state"""
 
-    def __init__(self, st):
+    def __init__(self, gen, st):
+        # program variables are bound by ROLE (initializer pattern / ordinal), never by their names:
+        #   D1 = the local initialised with {}            (child_counts)      L1 = the first local initialised with [<end_node>]  (stack)
+        #   L2 = the second such local (childless_nodes)  P2 = the target of the second list pop (node of loop 2)
         v, g = st.v, st.g
-        cc = v.get("child_counts")
+        cc = gen.var(st, "D1")
         self.K = (lambda x: z3.Select(cc[1], x)) if cc else None
         self.val = (lambda x: z3.Select(cc[2], x)) if cc else None
-        for nm in ("stack", "childless_nodes"):
-            if nm in v:
-                setattr(self, nm, v[nm][1])
-                setattr(self, nm + "_len", v[nm][2])
+        for role, nm in (("L1", "stack"), ("L2", "childless_nodes")):
+            c_ = gen.var(st, role)
+            if c_:
+                setattr(self, nm, c_[1])
+                setattr(self, nm + "_len", c_[2])
         self.g = g
         for q in ("gsrc", "gidx", "st_", "yidx", "cpos", "OUT"):
             setattr(self, q, (lambda a: (lambda x: z3.Select(a, x)))(g[q]))
         for q in ("Cnt", "pos", "slot", "eAtS", "eAtI", "Proc"):
             setattr(self, q, (lambda a: (lambda x, y: z3.Select(a, x, y)))(g[q]))
         self.cntINIT, self.olen, self.j = g["cntINIT"], g["OUTLEN"], g["j"]
-        self.node = v["node"][1] if "node" in v else None
+        nd = gen.var(st, "P2")
+        self.node = nd[1] if nd else None
 
 
 def edge(x, a, b):
@@ -88,7 +95,7 @@ def edge(x, a, b):
 
 # ------------------------------------------------------------------------------------------------------------------ loop 1
 def inv1(gen, st):
-    x = X(st)
+    x = X(gen, st)
     L, ST = x.stack_len, x.stack
     tgt = par(x.eAtS(n, s), x.eAtI(n, s))
     return [
@@ -141,11 +148,11 @@ def inv2_common(x, cur=None, j=None):
 
 
 def inv2(gen, st):
-    return inv2_common(X(st))
+    return inv2_common(X(gen, st))
 
 
 def inv3(gen, st):
-    x = X(st)
+    x = X(gen, st)
     return inv2_common(x, cur=x.node, j=x.j)
 
 
@@ -198,7 +205,7 @@ def h_extend1(gen, st, lst, src, base):
 
 
 def h_loopexit1(gen, st):
-    x = X(st)
+    x = X(gen, st)
     # least-fixpoint induction for R instantiated with P := keys(child_counts): if P contains end and is closed under par, R is inside P
     st.pc.append(z3.Implies(z3.And(x.K(END), z3.ForAll([m, i], z3.Implies(edge(x, m, i), x.K(par(m, i))))), z3.ForAll([n], z3.Implies(R(n), x.K(n)))))
 
@@ -218,7 +225,7 @@ def h_yield1(gen, st, elem, at):
 
 def h_append1(gen, st, lst, elem, at):
     g = st.g
-    node = st.v["node"][1]
+    node = gen.var(st, "P2")[1]
     g["st_"] = z3.Store(g["st_"], elem, 1)
     g["cpos"] = z3.Store(g["cpos"], elem, at)
     g["Proc"] = z3.Store(g["Proc"], node, g["j"], True)
@@ -226,7 +233,7 @@ def h_append1(gen, st, lst, elem, at):
 
 def h_augsub2(gen, st, key, old):
     g = st.g
-    node, j = st.v["node"][1], g["j"]
+    node, j = gen.var(st, "P2")[1], g["j"]
     sl = z3.Select(g["slot"], node, j)
     last = old - 1
     Ls, Li = z3.Select(g["eAtS"], key, last), z3.Select(g["eAtI"], key, last)
@@ -237,7 +244,7 @@ def h_augsub2(gen, st, key, old):
 
 
 def h_loopexit2(gen, st):
-    x = X(st)
+    x = X(gen, st)
     U = lambda a: z3.And(x.K(a), x.st_(a) != 2)
     w = lambda a: x.eAtS(a, 0)
     # L1 (well-founded descent on an integer rank bounded below), instantiated with U = un-yielded keys and witness w = source of slot 0
@@ -282,7 +289,7 @@ def call(gen, st, name, v):
 
 
 def post(gen, st):
-    x = X(st)
+    x = X(gen, st)
     return [
         ("T1-yields-exactly-the-reachable-nodes", z3.And(z3.ForAll([t], z3.Implies(z3.And(0 <= t, t < x.olen), R(x.OUT(t)))),
                                                        z3.ForAll([n], z3.Implies(R(n), z3.And(0 <= x.yidx(n), x.yidx(n) < x.olen, x.OUT(x.yidx(n)) == n))))),
